@@ -17,6 +17,11 @@ def spec_states(spec, n):
     states = oracle.all_states(n, outliers=True)
     if spec[0] == "single":
         return [states[spec[1]]]
+    if spec[0] == "revisit":
+        # the same tree recorded twice, numbered differently, the later copy with the higher score
+        asym = [s for s in states if len(s[0]) >= 2 and len({(len(b), p is None) for b, p in s[0]}) >= 2 or (len(s[0]) >= 3)]
+        a = asym[(spec[1] * 5) % len(asym)]
+        return [a, a]
     fs = frozenset
 
     def st(pairs, outl=()):
@@ -134,13 +139,16 @@ def case(item):
         data, crows = traces.named_data(n, dims=dims, grid=4, outlier_prob=0.2), None
     d = traces.scratch("c12_")
     try:
-        trees = [oracle.build(s, data) for s in sts]
+        trees = [oracle.build(s, data, reverse_siblings=(spec[0] == "revisit" and k == 1)) for k, s in enumerate(sts)]
         for t in trees:
             t.relabel_nodes()
-        chains = {0: [(t, -1.0 - 0.5 * k) for k, t in enumerate(trees)]}
+        if spec[0] == "revisit":
+            chains = {0: [(trees[0], -3.0), (trees[1], -1.0)]}
+        else:
+            chains = {0: [(t, -1.0 - 0.5 * k) for k, t in enumerate(trees)]}
         results = traces.make_results(data, samples, chains)
         path = traces.write_trace(d, results, crows)
-        single = sts[0] if len(sts) == 1 else None
+        single = sts[0] if (len(sts) == 1 or spec[0] == "revisit") else None
         jobs = []
         for mode in ("joint-likelihood", "frequency"):
             jobs.append(("map/" + mode, lambda tb, tr, mode=mode: write_map_results(path, tb, tr, map_type=mode), sts[0] if mode == "joint-likelihood" or single else None))
@@ -197,6 +205,10 @@ def main(tier, seed):
                     if tier == "quick" and n == 3 and (si + cl + dims) % 2:
                         continue
                     items.append((n, ("single", si), cl, dims))
+        if n == 3:
+            for k in range(8):
+                for cl in (False, True):
+                    items.append((n, ("revisit", k), cl, 1 + k % 2))
         if n >= 2:
             for k in range(1 if n == 2 else 3):
                 for cl in (False, True):
